@@ -299,7 +299,7 @@ def main():
         rep.write(a.out); return
     part_a(rep, rng.fork(), 20000 if a.thorough else 1500)
     part_b(rep, rng.fork(), 2000 if a.thorough else 150)
-    part_c(rep, rng.fork(), 60 if a.thorough else 8, 12 if a.thorough else 5)
+    part_c(rep, rng.fork(), 40 if a.thorough else 8, 10 if a.thorough else 5)
     rep.write(a.out)
 
 
